@@ -139,7 +139,7 @@ def generate(seed, tier):
             if k != "step":
                 live.remove(r)
             continue
-        k = g.weighted([("add", 6), ("addN", 2), ("remove", 4), ("remove_graph", 1), ("update", 2), ("commit", 2), ("rollback", 1), ("open", 4), ("len", 2), ("contains", 2), ("contexts", 1), ("query", 2), ("add-bnode", 0.5)])
+        k = g.weighted([("add", 6), ("addN", 2), ("remove", 4), ("remove_graph", 1), ("update", 2), ("commit", 2), ("rollback", 1), ("open", 4), ("len", 2), ("contains", 2), ("contexts", 1), ("query", 2), ("add-bnode", 0.5), ("parse", 1)])
         op = {"uid": uid, "k": k}
         if k == "contexts" and g.chance(0.6):
             op["t"] = tri()
@@ -171,6 +171,10 @@ def generate(seed, tier):
                 op["prefix"] = True
         elif k == "add-bnode":
             op["t"], op["g"] = [["b", "x1"], g.pick(PREDS), g.pick(objs)], gi()
+        elif k == "parse":
+            # Graph.parse() into the store-backed graph; in half of the cases the document is malformed from some line on
+            op["lines"], op["g"] = [tri() for _ in range(g.randint(1, 3))], gi()
+            op["bad"] = g.randrange(len(op["lines"]) + 1) if g.chance(0.5) else None
         ops.append(op)
     ops.append({"uid": nsteps + 1, "k": "commit"})
     if g.chance(0.4):
@@ -189,6 +193,15 @@ def nontrivial(trace, res):
 
 
 # ----------------------------------------------------------------------------- the loopback endpoint
+
+
+# An endpoint is not rdflib: the IRI under which rdflib's Dataset keeps its default graph is, there, the name of an ordinary
+# named graph.  The loopback endpoint answers with rdflib's engine on a Dataset, so that name is moved aside on the way in.
+FOREIGN_DEFAULT = "urn:x-endpoint:the-named-graph-that-has-the-name-rdflib-uses-for-its-default-graph"
+
+
+def _aside(text):
+    return text.replace("<" + DEFAULT + ">", "<" + FOREIGN_DEFAULT + ">")
 
 
 class Endpoint:
@@ -229,7 +242,7 @@ class Endpoint:
             raise urllib.error.HTTPError(url, int(fault["kind"][5:]), "simulated server error", email.message.Message(), io.BytesIO(b"error"))
         sp.SPARQL_DEFAULT_GRAPH_UNION = False
         if is_update:
-            text = body.decode("utf-8")
+            text = _aside(body.decode("utf-8"))
             self.apply_update(text)
             self.last["applied"] = True
             self.applied_log.append(text)
@@ -256,8 +269,10 @@ class Endpoint:
         from rdflib.term import URIRef
 
         dg = params.get("default-graph-uri")
+        if dg == DEFAULT:
+            dg = FOREIGN_DEFAULT
         target = Graph(self.ds.store, URIRef(dg)) if dg else self.ds
-        res = target.query(q)
+        res = target.query(_aside(q))
         accept = headers.get("accept", "")
         fmt = "json" if ("sparql-results+json" in accept and "sparql-results+xml" not in accept) else "xml"
         out = res.serialize(format=fmt)
@@ -523,6 +538,28 @@ def _execute(trace, ctx):
             except Exception:
                 ctx.probe("bnode-refused")
             ctx.check(len(store._edits or []) == n_edits and ep.quads() == before, "C20.bnode-partial", "a refused blank-node write left something behind")
+        elif k == "parse":
+            if cfg["autocommit"]:
+                continue  # (with autocommit every statement is its own request; the queue semantics are what is looked at here)
+            lines, bad = op["lines"], op.get("bad")
+            good = lines if bad is None else lines[:bad]
+            gk = gkey(op["g"])
+            from sim import writers
+
+            doc = "".join(writers.WRITERS["nt"]([[a, b, c, None]]).rstrip("\r\n") + "\n" for a, b, c in good)
+            if bad is not None:
+                doc += "<http://ex.org/s1> <http://ex.org/p> .\n" + "".join(writers.WRITERS["nt"]([[a, b, c, None]]).rstrip("\r\n") + "\n" for a, b, c in lines[bad:])
+                ctx.fault("document-malformed-midway")
+            for a, b, c in good:
+                pending.append(lambda tk=(skey(a), skey(b), skey(c)), gk=gk: model.setdefault(gk, set()).add(tk))
+            _, err = transact(lambda: handle(op["g"]).parse(data=doc, format="nt"))
+            ctx.log("parse", f"err={type(err).__name__ if err else None} queue={len(store._edits or [])} pending={len(pending)}")
+            ctx.probe("parse-into-endpoint-graph")
+            if bad is None and err is not None and not transport_fault():
+                ctx.deviation("C20.write-raised", f"parse of a well-formed document raised {type(err).__name__}: {err}", opk="parse")
+            if bad is not None:
+                ctx.check(err is not None, "C20.parse-swallowed", "parse of a malformed N-Triples document did not raise")
+            writes_since[0] += 1
         elif k in ("commit", "rollback"):
             if k == "rollback":
                 if pending:
